@@ -160,3 +160,22 @@ pub mod clone_axiom {
   {}
 }
 broadcast use clone_axiom::axiom_clone_faithful;
+
+// a cloned handle denotes the same cell: in the one-handle stand-in, a copy with equal content
+impl<T> Clone for MutRc<T> {
+  #[verifier::external_body]
+  fn clone(&self) -> (r: Self) ensures r == *self { unimplemented!() }
+}
+impl<T> Clone for MutArc<T> {
+  #[verifier::external_body]
+  fn clone(&self) -> (r: Self) ensures r == *self { unimplemented!() }
+}
+
+// handle-world observable (a subject is a handle on its two subscriber lists)
+pub trait HObservable<Item, Err, O: Observer<Item, Err>>: Sized {
+  type Unsub;
+  spec fn hsrc_wf(&self) -> bool;
+  fn actual_subscribe(&mut self, observer: O) -> (u: Self::Unsub)
+    requires old(self).hsrc_wf(), observer.wf(), observer.records(),
+    ensures final(self).hsrc_wf();
+}
